@@ -21,7 +21,8 @@ func init() {
 		Explanation: "C27.a TABLE: in the pre-update conversion closure of DB.RegisterPreUpdateHook each SQLite operation code maps to the matching event operation and populates exactly the row ids the statement's table names (INSERT: new; UPDATE: old and new; DELETE: old); old values are extracted iff the operation is not INSERT, new values iff it is not DELETE. " +
 			"C27.b DOM: in row-ids-only mode the closure returns before any Old/New extraction; with a table filter a non-matching table returns before an event is built. " +
 			"C27.c TABLE: normalizeCDCValues has a case for every Go type the driver's pre-update data can yield (int64, float64, []byte, string, bool, time.Time, nil). " +
-			"C27.d INIT: the value buffers handed to the driver's Old/New are allocated per call with exactly Count() elements (a reused or differently sized buffer leaks values of an earlier, wider row into this event).",
+			"C27.d INIT: the value buffers handed to the driver's Old/New are allocated per call with exactly Count() elements (a reused or differently sized buffer leaks values of an earlier, wider row into this event). " +
+			"C27.e CONST: the column-name lookup the commit hook depends on (CDCStreamer.CommitHook, DB.ColumnNames) runs without a deadline of its own — an event whose lookup is cut short is delivered without its row images.",
 		NotCovered: []string{"equality of the captured values with the row contents (driver behaviour)", "ordering of events within a statement (SQLite's hook order)"},
 		Run:        runC27,
 	})
@@ -44,6 +45,7 @@ func constOf(c *core.Ctx, pkgPath, name string) (int64, bool) {
 }
 
 func runC27(c *core.Ctx) {
+	c27c(c)
 	reg := c.Fn("C27.a", "db", "(*DB).RegisterPreUpdateHook")
 	if reg == nil {
 		return
